@@ -144,25 +144,37 @@ Print Assumptions C14_isfinite_exact.
    descend / next-sibling / return-to-parent branches, pruning by co-accessibility and max_length)
    generates exactly the specified list whenever it returns, for every fuel.  The start word must be
    over the alphabet (a foreign symbol is the open finding successor_start_has_foreign_symbol). *)
-Theorem C14_machine_refines_successors : forall fuel m start strict lo ohi l,
+Theorem C14_machine_refines_successors_partial : forall fuel m start strict lo ohi l,
   valid_dfa m = true ->
   (ohi = None -> finite_lang (L_dfa m)) ->
   (forall s, start = Some s -> Forall (fun a => In a (d_syms m)) s) ->
   succ_machine fuel m start strict false lo ohi = Ok l ->
   l = succ_list m start strict lo (the_hi m ohi).
 Proof. exact machine_forward_correct. Qed.
-Print Assumptions C14_machine_refines_successors.
+Print Assumptions C14_machine_refines_successors_partial.
 
 (* T2, reverse direction (predecessors = successors(reverse=True), with the row-8 repair): post-order
    over the descending alphabet, the empty word generated after the loop *)
-Theorem C14_machine_refines_predecessors : forall fuel m start strict lo ohi l,
+Theorem C14_machine_refines_predecessors_partial : forall fuel m start strict lo ohi l,
   valid_dfa m = true ->
   finite_lang (L_dfa m) ->
   (forall s, start = Some s -> Forall (fun a => In a (d_syms m)) s) ->
   succ_machine fuel m start strict true lo ohi = Ok l ->
   l = pred_list m start strict lo (the_hi m ohi).
 Proof. exact machine_reverse_correct. Qed.
-Print Assumptions C14_machine_refines_predecessors.
+Print Assumptions C14_machine_refines_predecessors_partial.
+
+(* The full T2 statement also promises termination within the budget the driver uses.  It is NOT
+   proved (the two theorems above are partial correctness: for every fuel, whenever the machine
+   returns).  The correspondence run fails on any Err Fuel answer; none has been observed. *)
+Definition C14_machine_total_statement : Prop :=
+  forall m start strict reverse lo ohi, valid_dfa m = true ->
+    (reverse = true \/ ohi = None -> finite_lang (L_dfa m)) ->
+    (forall s, start = Some s -> Forall (fun a => In a (d_syms m)) s) ->
+    d_syms m <> [] ->
+    succ_machine (machine_fuel m start ohi) m start strict reverse lo ohi =
+      Ok (if reverse then pred_list m start strict lo (the_hi m ohi)
+          else succ_list m start strict lo (the_hi m ohi)).
 
 (* ---- non-vacuity ---- *)
 (* partial DFA over {0,1}: 0 -0-> 1, 0 -1-> 2, 1 -1-> 2; finals {0,2}: L = {e, 1, 01} *)
